@@ -373,10 +373,7 @@ def run_encode(rep, tier=None):
     finish_engine(rep, it)
 
 
-def same_text(a, b):
-    """the same symbolic text (structurally identical terms), however the code moved it around"""
-    return a is b or (isinstance(a, BStr) and isinstance(b, BStr) and len(a.bytes) == len(b.bytes) and a.len.eq(b.len)
-                      and all(x.eq(y) for x, y in zip(a.bytes, b.bytes)))
+from mirsym.models_std import same_text   # noqa: E402
 
 
 def report_encode(rep, what):
